@@ -1,6 +1,7 @@
 import Ebv.Lemmas.Homo
 import Ebv.Lemmas.Assign
 import Ebv.Lemmas.Surface
+import Ebv.Lemmas.Typing
 /-! # C01 — integer DSL expressions compute the exact value
 
 Model: `Ebv.Gen` (tied to ebpfcat/ebpf.py by exact opcode-list correspondence, harness/vh/props/c01.py).
@@ -15,7 +16,9 @@ Instruction semantics: `Ebv.Ebpf` (validated three-way).  Proof chain:
   terms of `Ebpf.run`;
 * `*_refuted`: the defect classes of the unchanged generator, each on a concrete witness;
 * `before_fix_*`: regression witnesses of the repaired classes (`Sum - expression`, `abs` in 32 bits, unary operators
-  in place, unary operators in 32 bits inside a 64-bit computation). -/
+  in place, unary operators in 32 bits inside a 64-bit computation, the typing of `register ± int` and of `&`);
+* `typing_exact` (from `Gen.elab_psigned`, Lemmas/Typing.lean): the `signed` attribute the operator overloads give an
+  expression is the signedness the property defines for its text (`SExpr.psigned`). -/
 namespace Ebv.C01
 open Ebv.Ebpf Ebv.Gen
 
@@ -596,6 +599,67 @@ theorem before_fix_abs_32 :
     (emitProg ⟨[1, 3, 10], stdVars, [.set (.reg .r 2) (.abs (.reg .sr 3))]⟩).toOption =
       some [⟨Consts.op_MOV + Consts.op_REG + Consts.op_LONG, 2, 3, 0, 0⟩, ⟨Consts.op_JSGE, 2, 0, 1, 0⟩,
         ⟨Consts.op_NEG + Consts.op_LONG, 2, 0, 0, 0⟩] := by decide +kernel
+
+/-! ### the typing of `register ± int` and of `&` (repaired; the checks had not seen it, see DESIGN §10.5)
+
+`self.sr2 = (self.sr3 + 1) >> 1`.  `Sum.__init__` took the signedness of `register ± int` from the sign of the number
+alone (`right.value < 0`) and forgot the register's: `sr3 + 1` was unsigned, so `>>` chose the logical `RSH`.  Two
+relatives: the number a `Sum` keeps is the merged one (`r3 - 1` keeps −1 and was signed although `w3 - 1`, `r3 - r4` are
+not; `(r3 + -1) + 1` keeps 0 and lost its signedness), and `&` was always unsigned (`sr3 & sr4` is negative when both
+are).  The object trees of the unrepaired code are kept by hand. -/
+def e8 : SExpr := .bin .rsh (.bin .add (.reg .sr 3) (.c 1)) (.c 1)
+def p8 : Prog := ⟨[1, 3, 4, 10], stdVars, [.set (.reg .sr 2) e8]⟩
+def s8 : State := st0 [(3, 18446744073709551611), (4, 18446744073709551612), (10, 4096)]     -- sr3 = −5, sr4 = −4
+
+/-- what `self.sr2 = <tree>` emits in the initial state of `p8` -/
+def codeOfTree (t : Expr) : List Insn :=
+  match setReg 2 true (.ex t) (initState p8) with
+  | .ok (_, g) => g.code
+  | .error _ => []
+
+/-- the object `(self.sr3 + 1) >> 1` was **before the fix**: the `Sum` unsigned, hence `RSH` -/
+def before_fix_tree8 : Expr :=
+  .bin .rsh (.bin .add (.reg 3 true true) (.const 1) false .sum) (.const 1) false .plain
+
+/-- **regression witness**: with sr3 = −5 the old tree shifts logically (0x7ffffffffffffffe) where the property asks
+for (−4) >> 1 = −2; the repaired operator protocol types the `Sum` signed and builds the `ARSH` tree, `psigned` of the
+text says signed, and the emitted code computes −2 -/
+theorem before_fix_sum_signed :
+    regAfter (codeOfTree before_fix_tree8) s8 2 = 9223372036854775806 ∧ want p8 s8 e8 = 18446744073709551614 ∧
+    builtTree p8 e8 = some (.bin .arsh (.bin .add (.reg 3 true true) (.const 1) true .sum) (.const 1) true .plain) ∧
+    (SExpr.bin .add (.reg .sr 3) (.c 1)).psigned (layout p8.vars) = true ∧
+    (emitProg p8).toOption.isSome = true ∧ regAfter (codeOf p8) s8 2 = 18446744073709551614 := by decide +kernel
+
+/-- the merged number: `r3 - 1` keeps −1 but is unsigned like `w3 - 1` (it was signed); `(r3 + -1) + 1` keeps 0 but
+stays signed (it was unsigned); `(r3 - 1) + 1` is unsigned; the text decides, as `psigned` says -/
+theorem before_fix_sum_merged :
+    builtTree p8 (.bin .sub (.reg .r 3) (.c 1)) = some (.bin .add (.reg 3 true false) (.const (-1)) false .sum) ∧
+    builtTree p8 (.bin .add (.bin .add (.reg .r 3) (.c (-1))) (.c 1)) =
+      some (.bin .add (.reg 3 true false) (.const 0) true .sum) ∧
+    builtTree p8 (.bin .add (.bin .sub (.reg .r 3) (.c 1)) (.c 1)) =
+      some (.bin .add (.reg 3 true false) (.const 0) false .sum) ∧
+    (SExpr.bin .sub (.reg .r 3) (.c 1)).psigned (layout p8.vars) = false ∧
+    (SExpr.bin .add (.bin .add (.reg .r 3) (.c (-1))) (.c 1)).psigned (layout p8.vars) = true := by decide +kernel
+
+/-- `self.sr2 = (self.sr3 & self.sr4) >> 1`, as it was **before the fix**: the `AndExpression` unsigned, hence `RSH` -/
+def e8a : SExpr := .bin .rsh (.bin .and (.reg .sr 3) (.reg .sr 4)) (.c 1)
+def before_fix_tree8a : Expr :=
+  .bin .rsh (.bin .and (.reg 3 true true) (.reg 4 true true) false .and) (.const 1) false .plain
+
+/-- **regression witness**: −5 & −4 = −8, (−8) >> 1 = −4; the old tree shifts logically; now `&` of two signed operands is
+signed (with one unsigned operand it stays unsigned: the result cannot be negative) -/
+theorem before_fix_and_signed :
+    regAfter (codeOfTree before_fix_tree8a) s8 2 = 9223372036854775804 ∧ want p8 s8 e8a = 18446744073709551612 ∧
+    builtTree p8 e8a = some (.bin .arsh (.bin .and (.reg 3 true true) (.reg 4 true true) true .and) (.const 1) true .plain) ∧
+    builtTree p8 (.bin .and (.reg .sr 3) (.reg .r 4)) = some (.bin .and (.reg 3 true true) (.reg 4 true false) false .and) ∧
+    regAfter (codeOfTree ((builtTree p8 e8a).getD (.const 0))) s8 2 = 18446744073709551612 := by decide +kernel
+
+/-- **the implementation's typing is the property's typing**: for every statement of every program, the `signed`
+attribute of the object the operator overloads build for the right-hand side (`Expr.signed`; for a folded Python `int`
+the sign of the number) is `psigned` of the expression as written -/
+theorem typing_exact (p : Prog) (d : Dest) (e : SExpr) (v : PyVal) (_hst : Stmt.set d e ∈ p.stmts)
+    (h : elabE (layout p.vars) e = .ok v) : v.signed = e.psigned (layout p.vars) :=
+  (elab_psigned (layout p.vars) e v h).2
 
 /-- *divmod-negative* (stage 3): `self.sr2 = self.sr3 // 2` with sr3 = −6: the unsigned DIV gives neither the
 flooring nor the truncating quotient (both −3) -/
